@@ -54,7 +54,7 @@ def run(ctx):
     s2 = ctx.collect(ctx.scratch / "sets.res")
     replayed = s1["replayed"] + s2["replayed"]
     ctx.evaluations += replayed
-    ctx.distinct += replayed - 4 - 2  # the empty paths
+    ctx.distinct += s1["distinct_nontrivial"] + s2["distinct_nontrivial"]
     ctx.traces += replayed
     ctx.exhaustive = True
     ctx.extra["paths_enumerated_exhaustively"] = exhaustive_n
